@@ -116,6 +116,55 @@ def c05_case(draw):
                 board_form=draw(st.sampled_from(forms)))
 
 
+def env_digest(case):
+    """What the two entry points answer for one case, as text (compared
+    between interpreter processes by pkv/envrun.py)."""
+    cls = getattr(pokerkit, case['cls'])
+    hs, bs = ''.join(case['hole']), ''.join(case['board'])
+    out = []
+    for f in (cls.from_game_or_none, cls.from_game):
+        try:
+            out.append(repr(f(hs, bs)))
+        except ValueError:
+            out.append('ValueError')
+        except Exception as e:  # noqa: BLE001
+            out.append('exc:' + type(e).__name__)
+    return '|'.join(out)
+
+
+def extra(tier, seed, stats):
+    """The evaluation does not depend on how the interpreter was started:
+    the same inputs give the same answers under ``python -O`` (where
+    ``__debug__`` is False) and under another PYTHONHASHSEED."""
+    from ..envrun import digests_here, digests_in
+    from ..fuzz import build_pool
+    import sys as _sys
+
+    class _M:
+        @staticmethod
+        def strategy(t):
+            return c05_case()
+
+    n = 600 if tier == 'quick' else 6000
+    pool = build_pool(_M, tier, 104729 * (seed + 1), n)
+    here = digests_here(ID, pool)
+    viols = []
+    for label, kw in (('python -O', dict(optimize=True)),
+                      ('PYTHONHASHSEED=1', dict(hash_seed=1))):
+        there = digests_in(ID, pool, **kw)
+        for c, a, b in zip(pool, here, there):
+            if a != b:
+                viols.append((V(ID, 'depends_on_interpreter_mode', label,
+                                f'{c["cls"]} hole {"".join(c["hole"])} board'
+                                f' {"".join(c["board"])}: {a} here, {b}'
+                                f' under {label}'),
+                              dict(c, kind='env', env=label)))
+                break
+    return viols, dict(evaluations=3 * len(pool), distinct_nontrivial=0,
+                       interpreter_modes=['default', 'python -O',
+                                          'PYTHONHASHSEED=1'])
+
+
 def budget(tier):
     if tier == 'quick':
         return dict(examples=80000, wall=90)
@@ -127,6 +176,17 @@ def strategy(tier):
 
 
 def check(case, stats):
+    if case.get('kind') == 'env':
+        from ..envrun import digests_here, digests_in
+        one = {k: v for k, v in case.items() if k not in ('kind', 'env')}
+        a = digests_here(ID, [one])[0]
+        kw = dict(optimize=True) if case.get('env') == 'python -O' \
+            else dict(hash_seed=1)
+        b = digests_in(ID, [one], **kw)[0]
+        if a != b:
+            return [V(ID, 'depends_on_interpreter_mode', case.get('env'),
+                      f'{a} here, {b} under {case.get("env")}')]
+        return []
     cname = case['cls']
     cls = getattr(pokerkit, cname)
     hole, board = case['hole'], case['board']
